@@ -648,6 +648,14 @@ func c09ExitConditions(c *Ctx, r *Result) {
 				ok = anyTrue(st, noWorkers) && anyTrue(st, noTasks)
 			case "SetWorkerCount":
 				ok = anyTrue(st, countReached)
+				// `for wait && count not reached`: left at once when the caller did not ask to wait
+				if !ok {
+					for _, p := range fn.Params {
+						if b, isB := p.Type().Underlying().(*types.Basic); isB && b.Kind() == types.Bool && st.Get(p, o) == AvNil {
+							ok = true
+						}
+					}
+				}
 			}
 			if !ok {
 				bad = "the polling loop can be left although not (" + sp.want + ")"
